@@ -40,6 +40,7 @@ def extra(led, tier, seed):
     led.obs = [o for o in led.obs if o.name.endswith((":safety", ":no-exception", ":grad shape", "finite (no non-finite value reaches them)", ":shapes", ":shape"))
                or "empty cluster gradient" in o.name or ":paths-explored" in o.name or "direction[" in o.name or "len(grads)" in o.name or ".shape" in o.name]
     led.extend(rt_obligations.degenerate_obligations(seed, tier))
+    led.extend(rt_obligations.mlcl_degenerate_obligations(seed))
     led.extend(prox_native.zero_case())
     led.assume("A1", "A2: machine arithmetic treated as mathematical -- overflow, underflow and NaN propagation are NOT decided by the contracts; they are covered by the bounded native runs only",
                "the hierarchical proximal step on a feature whose skip and hidden weights are already zero relies on IEEE arithmetic (alpha/0 = inf, max(-inf, 0) = 0): native check (B)",
